@@ -150,6 +150,8 @@ func init() {
 			obs = append(obs, c.OfflineUUID()...)
 			obs = append(obs, c.ReceiveBufferPerPacket()...)
 			obs = append(obs, c.PutAfterRetain("bot")...)
+			// the bot's own dispatch on what the peer sent: indexes and sizes taken from a received packet
+			obs = append(obs, c.TLGObs(pkgPred("bot"), pkgPred("bot"), false)...)
 			obs = append(obs, c.Pools("net/packet")...)
 			obs = append(obs, c.DrainBeforeClose("net/queue")...)
 			obs = append(obs, c.LengthPrefixes("net/packet")...)
